@@ -477,15 +477,15 @@ func sameTree(key string, s sv, o la) string {
 }
 
 // ---------------------------------------------------------------- decoding an emitted record
-// jnode is one member of a decoded JSON record, in the order of the text; a JSON object is a group
-type jnode struct {
+// c15node is one member of a decoded JSON record, in the order of the text; a JSON object is a group
+type c15node struct {
 	Key   string  `json:"key"`
 	Group bool    `json:"group,omitempty"`
 	Raw   string  `json:"raw,omitempty"`
-	Items []jnode `json:"items,omitempty"`
+	Items []c15node `json:"items,omitempty"`
 }
 
-func decodeMembers(raw []byte) ([]jnode, error) {
+func decodeMembers(raw []byte) ([]c15node, error) {
 	dec := json.NewDecoder(strings.NewReader(string(raw)))
 	t, err := dec.Token()
 	if err != nil {
@@ -494,7 +494,7 @@ func decodeMembers(raw []byte) ([]jnode, error) {
 	if d, ok := t.(json.Delim); !ok || d != '{' {
 		return nil, fmt.Errorf("not an object")
 	}
-	out := []jnode{}
+	out := []c15node{}
 	for dec.More() {
 		kt, err := dec.Token()
 		if err != nil {
@@ -508,7 +508,7 @@ func decodeMembers(raw []byte) ([]jnode, error) {
 		if err := dec.Decode(&v); err != nil {
 			return out, err
 		}
-		n := jnode{Key: key, Raw: string(v)}
+		n := c15node{Key: key, Raw: string(v)}
 		if len(v) > 0 && v[0] == '{' {
 			n.Group = true
 			if n.Items, err = decodeMembers(v); err != nil {
@@ -552,7 +552,7 @@ type emission struct {
 	Time    string  `json:"time,omitempty"`
 	Msg     string  `json:"msg"`
 	MsgOK   bool    `json:"msg_ok"`
-	Attrs   []jnode `json:"attrs"`
+	Attrs   []c15node `json:"attrs"`
 	Caller  bool    `json:"caller"`
 	Payload []byte  `json:"payload,omitempty"`
 }
@@ -567,7 +567,7 @@ func levelByName(name string) int {
 }
 
 func decodeEmission(dest int, p []byte) emission {
-	e := emission{Dest: dest, Level: -99, Attrs: []jnode{}}
+	e := emission{Dest: dest, Level: -99, Attrs: []c15node{}}
 	if string(p) == "\n" {
 		e.Shape = "Blank"
 		return e
@@ -644,8 +644,8 @@ func collectEmissions() []emission {
 
 // attrsDiff compares what was to be written (source trees, LogValuers resolved)
 // with the members of the decoded record, by key at every level of nesting
-func attrsDiff(want []sa, got []jnode, path string) string {
-	idx := map[string]*jnode{}
+func attrsDiff(want []sa, got []c15node, path string) string {
+	idx := map[string]*c15node{}
 	for i := range got {
 		if _, dup := idx[got[i].Key]; dup {
 			return fmt.Sprintf("key %q occurs twice", path+got[i].Key)
@@ -707,7 +707,7 @@ func attrsDiff(want []sa, got []jnode, path string) string {
 	return ""
 }
 
-func jnodesCoq(ns []jnode) string {
+func jnodesCoq(ns []c15node) string {
 	var it []string
 	for _, n := range ns {
 		if n.Group {
